@@ -15,3 +15,11 @@ add("C02", "differential runtime oracle: real model functions vs independent "
     "and one ulp around the contact point, sphere depths up to R.",
     "Reference formulas transcribed from docstrings/publications; 64 eps "
     "round-off tolerance; says nothing about parameter vectors not generated.")
+add("C13", "metamorphic runtime monitor on every registered model (shipped + "
+    "4 harness-defined awkward models): reversal, exact dyadic translation, "
+    "baseline additivity, power-of-two modulus scaling, continuity, monotony, "
+    "argument fingerprints, residual definition",
+    "Held on the generated executions of all registered models; exact "
+    "(bitwise) comparisons wherever the arithmetic is exact by construction.",
+    "Dyadic abscissa grid and power-of-two factors make bitwise comparison "
+    "legitimate; third-party registry entries are logged, not judged.")
